@@ -489,10 +489,10 @@ impl VarIntEncoder {
             let prev_value = result[result.len() - 1];
             let next_value = if (encoded_delta & 1) == 0 {
                 // Positive delta
-                prev_value + (encoded_delta >> 1)
+                prev_value.wrapping_add(encoded_delta >> 1)
             } else {
                 // Negative delta
-                prev_value - (encoded_delta >> 1)
+                prev_value.wrapping_sub(encoded_delta >> 1)
             };
             
             result.push(next_value);
